@@ -194,6 +194,72 @@ impl Engine for GoldenEngine {
                 }
             }
         }
+        // 5. power cut during the first session on the release's file: the first journal, record,
+        // marker and metadata writes of the current tree land (or do not, or land torn) next to what
+        // the release left in the reserved area; every record the session did not touch must
+        // survive as the release wrote it, the touched ones in their old or new state
+        if report.violation.is_none() {
+            let mut pick = crate::tape::Tape::fresh(mix(sc.seed, 0x60CD));
+            let mut env2 = Env::new(Arc::clone(sim), sc.store.clone(), Vec::new(), "goldcrash");
+            env2.install_image(image.clone());
+            feoxdb::verif::process_restart();
+            if let Err(e) = env2.open() {
+                report.fail("golden-open-failed", format!("golden v{version} cannot be opened by the current tree: {e:?}"));
+            } else {
+                let disk2 = env2.disk.clone().unwrap();
+                let at = disk2.calls() + pick.range(0, 14);
+                disk2.set_plan(FaultPlan { crash_at_call: Some(at), ..FaultPlan::default() });
+                let store = Arc::clone(env2.st());
+                let new_key = b"written-by-current-tree".to_vec();
+                let _ = store.insert(&new_key, &harness::plain_value(99, 1, 1, 5000));
+                let _ = store.insert(b"key:one-block", b"overwritten by the current tree");
+                let _ = store.delete(b"a");
+                // in half of the runs the first batch names so many extents that its journal image
+                // spans several sectors (a single-sector write cannot be torn)
+                let crowd = if pick.chance(1, 2) { 64 + pick.below(60) as usize } else { 0 };
+                for i in 0..crowd {
+                    let _ = store.insert(format!("gc:{i:03}").as_bytes(), &harness::plain_value(98, 2, i as u32, 20 + i));
+                }
+                let _ = store.flush();
+                drop(store);
+                let capture = disk2.take_capture().unwrap_or_else(|| disk2.capture_now());
+                disk2.kill();
+                let family = capture.family(512, 3, true, 2, &mut pick);
+                let touched: [&[u8]; 3] = [b"written-by-current-tree", b"key:one-block", b"a"];
+                report.count(if crowd > 0 { "golden_crash_multi_sector_journal" } else { "golden_crash_small_batch" }, 1);
+                let mut original: BTreeMap<Vec<u8>, Gen> = BTreeMap::new();
+                for r in parsed["records"].as_array().cloned().unwrap_or_default() {
+                    original.insert(unhex(r["key"].as_str().unwrap_or("")), Gen { value: unhex(r["value"].as_str().unwrap_or("")), ts: r["timestamp"].as_u64().unwrap_or(0), expiry: r["expiry"].as_u64().unwrap_or(0) });
+                }
+                let mut env3 = Env::new(Arc::clone(sim), sc.store.clone(), Vec::new(), "goldrec");
+                for v in family.iter().take(6) {
+                    env3.close();
+                    env3.install_image(capture.build(v));
+                    feoxdb::verif::process_restart();
+                    if let Err(e) = env3.open() {
+                        report.fail("reopen-failed-after-crash", format!("golden v{version}, power cut at device call {at} of the first session ({}): the file cannot be opened: {e:?}", v.label));
+                        break;
+                    }
+                    let mut bad = None;
+                    for (k, g) in original.iter().filter(|(k, _)| !touched.contains(&k.as_slice())) {
+                        match (env3.st().verif_key(k), env3.st().get(k)) {
+                            (Some(o), Ok(val)) if o.timestamp == g.ts && o.expiry == g.expiry && val == g.value => {}
+                            (o, val) => {
+                                bad = Some(format!("key {} written by the release reads {:?} / {:?} bytes", show(k), o.map(|o| o.timestamp), val.map(|v| v.len())));
+                                break;
+                            }
+                        }
+                    }
+                    if let Some(why) = bad {
+                        report.fail("golden-record-lost-after-crash", format!("golden v{version}, power cut at device call {at} of the first session on the file ({}): {why}", v.label));
+                        break;
+                    }
+                    report.count("golden_crash_images_recovered", 1);
+                }
+                env3.cleanup();
+            }
+            env2.cleanup();
+        }
         report.nontrivial = true;
         report.ops = expected.len() as u64;
         report.extra_hash = mix(version as u64, sc.store.cache as u64 | (sc.store.ttl as u64) << 1 | (sc.store.hash_bits as u64) << 2);
